@@ -20,8 +20,8 @@ import random
 import shutil
 import sys
 
-from . import model
-from .core import Chooser, Group, Scheduler, SimInterrupt
+from . import model, remote
+from .core import Chooser, Group, HarnessError, RemoteTaskError, Scheduler, SimInterrupt
 from .install import MODS, check_audit
 from .seams import WORLD, SimClock, run_atexit
 
@@ -106,10 +106,20 @@ class Exec:
         self.nontrivial = False
 
     # ------------------------------------------------------------------ helpers
+    # (inside a forked worker process `self.remote` is set and observations travel to the parent)
+    remote = None
+    child_pids: list = []
+
     def v(self, clause, detail):
+        if self.remote is not None:
+            self.remote.send(("viol", clause, detail))
+            return
         self.viol.append(Violation(clause, detail))
 
     def note(self, key, n=1):
+        if self.remote is not None:
+            self.remote.send(("note", key, n))
+            return
         self.notes[key] = self.notes.get(key, 0) + n
 
     def path(self, fname):
@@ -257,7 +267,11 @@ class Exec:
             return
         t = s.current
         if when == "enter":
-            self.evals.append((self.phase_idx, t.group.name, t.ctx.get("subject"), t.ctx.get("file")))
+            rec = (self.phase_idx, t.group.name, t.ctx.get("subject"), t.ctx.get("file"))
+            if self.remote is not None:
+                self.remote.send(("eval", rec))
+            else:
+                self.evals.append(rec)
         elif when == "exit" and self.plan.get("check_loader"):
             rep = {}
             for g, tup in res.items():
@@ -267,7 +281,10 @@ class Exec:
                 if ct is not None:
                     d[TIME_KEY] = model.canon(ct)
                 rep[g] = d
-            self.reported[(t.ctx.get("file"), t.ctx.get("subject"))] = rep
+            if self.remote is not None:
+                self.remote.send(("reported", (t.ctx.get("file"), t.ctx.get("subject")), rep))
+            else:
+                self.reported[(t.ctx.get("file"), t.ctx.get("subject"))] = rep
 
     def _session_main(self, sess, group):
         s = self.sched
@@ -301,7 +318,11 @@ class Exec:
                     target = agg_mod.Path(target)
                 s.current.ctx["file"] = fname
                 try:
-                    a = agg_mod.Panoptica_Aggregator(ev, target, log_times=bool(f.get("log_times")))
+                    if sess.get("continue_file") is False:
+                        # explicit continue_file=False on a file that does not exist yet: nothing to continue
+                        a = agg_mod.Panoptica_Aggregator(ev, target, log_times=bool(f.get("log_times")), continue_file=False)
+                    else:
+                        a = agg_mod.Panoptica_Aggregator(ev, target, log_times=bool(f.get("log_times")))
                 except AssertionError:
                     if sess.get("spec_variant"):
                         # a restart that declares the setup differently may be refused
@@ -327,8 +348,12 @@ class Exec:
             if sess.get("main_stat"):
                 # the parent builds a statistics object before handing work to its workers ...
                 self._main_stat(sess, aggs, "before")
+            real_fork = plan["knobs"].get("mode") in ("procs", "forked")
             for i, ops in enumerate(sess["tasks"]):
-                workers.append(s.spawn(f"{group.name}.w{i}", group, self._worker, sess, aggs, ops))
+                if real_fork:
+                    workers.append(self._spawn_remote(s, group, f"{group.name}.w{i}", sess, aggs, ops))
+                else:
+                    workers.append(s.spawn(f"{group.name}.w{i}", group, self._worker, sess, aggs, ops))
             s.join(workers)
             if sess.get("main_stat"):
                 # ... and again after all of them returned: it must see every row they wrote
@@ -342,6 +367,128 @@ class Exec:
         errs = run_atexit(group)
         for e in errs:
             self.v("no_exception", f"atexit handler raised {e[0]}: {e[1]}")
+        return True
+
+    # ------------------------------------------------------------------ worker processes (real fork)
+    def _spawn_remote(self, s, group, name, sess, aggs, ops):
+        """Fork a worker process now (the running thread is the session's parent) and give it a
+        proxy task in the scheduler."""
+        cmd_r, cmd_w = os.pipe()
+        msg_r, msg_w = os.pipe()
+        tid = len(s.tasks)
+        sys.stdout.flush()
+        pid = os.fork()
+        if pid == 0:
+            code = 0
+            try:
+                os.close(cmd_w)
+                os.close(msg_r)
+                for fd in self.parent_fds:
+                    try:
+                        os.close(fd)
+                    except OSError:
+                        pass
+                remote.die_with_parent()
+                rs = remote.RemoteSched(cmd_r, msg_w, tid, name, group, ("worker", group.gid, tid))
+                WORLD.sched = rs
+                WORLD.remote = rs
+                WORLD.clock = remote.RemoteClock(rs, None)
+                WORLD.stats.clear()
+                WORLD.seam_counts.clear()
+                WORLD.audit_counts.clear()
+                self.sched = rs
+                self.remote = rs
+                exc = None
+                try:
+                    rs.wait_go()
+                    self._worker(sess, aggs, ops)
+                except SimInterrupt:
+                    exc = ("SimInterrupt", "", "")
+                except BaseException as e:  # noqa: BLE001 - what the code under test raises is data
+                    import traceback
+
+                    exc = (type(e).__name__, str(e)[:500], traceback.format_exc()[-4000:])
+                rs.send(("stats", dict(WORLD.stats), dict(WORLD.seam_counts), dict(WORLD.audit_counts)))
+                rs.send(("done", exc))
+            except BaseException:  # noqa: BLE001
+                code = 3
+            finally:
+                os._exit(code)
+        os.close(cmd_r)
+        os.close(msg_w)
+        self.parent_fds.extend([cmd_w, msg_r])
+        self.child_pids.append(pid)
+        return s.spawn(name, group, self._proxy, cmd_w, msg_r, pid)
+
+    def _proxy(self, cmd_w, msg_r, pid):
+        """The worker process's task in the central scheduler: performs every scheduling point,
+        lock operation and clock reading on the child's behalf."""
+        s = self.sched
+        t = s.current
+        t.ctx["proc"] = t.tid + 1
+        w = WORLD
+        S, R = remote._send, remote._recv
+        S(cmd_w, ("go",))
+        exc = None
+        while True:
+            m = R(msg_r)
+            if m is None:
+                raise HarnessError(f"worker process of task {t.name} died without a result")
+            k = m[0]
+            try:
+                if k == "point":
+                    s.point(m[1], m[2])
+                    S(cmd_w, ("go",))
+                elif k == "unwind":
+                    s.point(m[1], m[2])
+                elif k == "lock_acquire" or k == "lock_acquire_unwinding":
+                    S(cmd_w, ("ok", s.lock_acquire(m[1], m[2], m[3])))
+                elif k == "lock_release":
+                    try:
+                        s.lock_release(m[1], m[2])
+                    except ValueError as e:
+                        S(cmd_w, ("error", str(e)))
+                    else:
+                        S(cmd_w, ("ok",))
+                elif k == "block_forever":
+                    while True:
+                        s.block(("worker", m[1]))
+                elif k == "count":
+                    s.count(m[1], m[2])
+                elif k == "clock":
+                    c = w.clock
+                    S(cmd_w, ("ok", c.wall if m[1] == "wall" else getattr(c, m[1])()))
+                elif k == "mtime":
+                    if m[1] == "set":
+                        w.set_mtime(m[2])
+                        S(cmd_w, ("ok", None))
+                    else:
+                        S(cmd_w, ("ok", w.known_mtime(m[2], m[3])))
+                elif k == "viol":
+                    self.v(m[1], m[2])
+                elif k == "note":
+                    self.note(m[1], m[2])
+                elif k == "eval":
+                    self.evals.append(tuple(m[1]))
+                elif k == "reported":
+                    self.reported[tuple(m[1])] = m[2]
+                elif k == "stats":
+                    for src, dst in ((m[1], w.stats), (m[2], w.seam_counts), (m[3], w.audit_counts)):
+                        for kk, n in src.items():
+                            dst[kk] = dst.get(kk, 0) + n
+                elif k == "done":
+                    exc = m[1]
+                    break
+            except SimInterrupt:
+                S(cmd_w, ("interrupt",))
+        try:
+            os.waitpid(pid, 0)
+        except ChildProcessError:
+            pass
+        if exc is not None and exc[0] == "SimInterrupt":
+            raise SimInterrupt()
+        if exc is not None:
+            raise RemoteTaskError(exc)
         return True
 
     def _main_stat(self, sess, aggs, when):
@@ -539,17 +686,17 @@ class Exec:
             for fname in sorted(os.listdir(self.work)):
                 b = model.read_bytes(os.path.join(self.work, fname))
                 st.append((fname, hashlib.sha256(b or b"").hexdigest()[:12]))
-            owners = []
-            for g in s.groups:
-                for n, lk in sorted(g.locks.items()):
-                    owners.append((n, None if lk.owner is None else lk.owner.name))
+            owners = sorted((str(k), None if v["owner"] is None else v["owner"].name) for k, v in s.lockstate.items())
             self.states.add(_h(st, owners))
 
     def run_phase(self, pi, phase):
         plan = self.plan
         k = plan["knobs"]
         self.phase_idx = pi
-        lt = ("panoptica_aggregator.py",) if k.get("line_preempt") else ()
+        # source-line pre-emption only matters where memory is shared (thread mode)
+        lt = ("panoptica_aggregator.py",) if k.get("line_preempt") and k.get("mode") == "threads" else ()
+        self.parent_fds = []
+        self.child_pids = []
         s = Scheduler(self.chooser, budget=k.get("budget", 400000), line_trace_files=lt)
         if k.get("relpath") is not None:
             os.chdir(self.work)
@@ -603,6 +750,23 @@ class Exec:
         outcome = s.run()
         w.sched = None
         w.eval_hook = None
+        import signal as _signal
+
+        for pid in self.child_pids:  # workers of killed groups are still parked on their pipes
+            try:
+                os.kill(pid, _signal.SIGKILL)
+            except ProcessLookupError:
+                pass
+        for pid in self.child_pids:
+            try:
+                os.waitpid(pid, 0)
+            except ChildProcessError:
+                pass
+        for fd in self.parent_fds:
+            try:
+                os.close(fd)
+            except OSError:
+                pass
         self.steps_per_phase.append(s.step)
         self.logs.append(s.log)
         for ff in s.faults_fired:
@@ -615,7 +779,9 @@ class Exec:
         elif outcome == "budget":
             self.v("no_deadlock", f"phase {pi}: step budget exhausted (livelock)")
         for t in s.tasks:
-            if t.exc is not None and t.exc[0] != "SimInterrupt":
+            if t.exc is not None and t.exc[0] == "HarnessError":
+                self.harness_error = f"phase {pi} task {t.name}: {t.exc[1]} | {t.exc[2][-600:]}"
+            elif t.exc is not None and t.exc[0] != "SimInterrupt":
                 self.v("no_exception", f"phase {pi} task {t.name}: {t.exc[0]}: {t.exc[1]}")
                 self.note("exc:" + t.exc[0])
         # overlap measure: two tasks were inside operations at the same time
@@ -1170,7 +1336,7 @@ def _phase_image(plan: dict, root: str, pi: int) -> dict:
     ex.world()
     ex.run_phase(pi, plan["phases"][pi])
     WORLD.armed = False
-    return ex.phase_result(check_audit())
+    return ex.phase_result(getattr(ex, "harness_error", None) or check_audit())
 
 
 @_guard
